@@ -407,8 +407,9 @@ func (d *DBFT[H]) createAndCheckBlock() bool {
 	return true
 }
 
-// updateExistingPayloads is called _only_ from onPrepareRequest, it validates
-// payloads we may have received before PrepareRequest.
+// updateExistingPayloads validates payloads we may have received before
+// PrepareRequest, it's called when the request is received (onPrepareRequest)
+// or sent (sendPrepareRequest).
 func (d *DBFT[H]) updateExistingPayloads(msg ConsensusPayload[H]) {
 	for i, m := range d.PreparationPayloads {
 		if m != nil && m.Type() == PrepareResponseType {
